@@ -183,6 +183,11 @@ def weave(item, ext):
                     REANCHORED.append("%s: loop %d no longer exists, its woven %s was dropped" % (what, arg, kind))
                     continue
                 raise Undecided("lost anchor: %s: no loop %d (function shape changed)" % (what, arg))
+            if USE_BASELINE_LOOPS and kind == 'loop':
+                bl = (shapes().get(what) or {}).get('loops') or []
+                cl = ext.get('loop_sigs') or []
+                if arg < len(bl) and arg < len(cl) and bl[arg] != cl[arg]:
+                    REANCHORED.append("%s: loop %d is not the loop its invariant was written for (now %r, was %r)" % (what, arg, cl[arg], bl[arg]))
             text = text.replace(mk, '\n' + body + '\n', 1)
         elif kind == 'closure':
             b = '/*@CLS:%d:BEGIN@*/' % arg
@@ -197,14 +202,34 @@ def weave(item, ext):
             base_cl = (shapes().get(what) or {}).get('closures') or []
             cur_header = re.sub(r'\s+', ' ', text[i + len(b):j]).strip()
             if USE_BASELINE_LOOPS and arg < len(base_cl) and base_cl[arg] and base_cl[arg] != cur_header:
-                # the closure at this ordinal has other parameters than the one the contract was written for
-                REANCHORED.append("%s: closure %d changed its parameters (%r, was %r), its woven contract was dropped" % (what, arg, cur_header, base_cl[arg]))
-                continue
+                # the closure's parameters were renamed: the woven contract follows the new names (same number of simple
+                # parameters); any other change of the parameter list leaves the contract as written (a type error then
+                # makes the run undecided)
+                def names(h):
+                    m = re.match(r'^(?:move\s*)?\|(.*)\|\s*(?:->.*)?$', h)
+                    if not m:
+                        return None
+                    out = []
+                    for part in m.group(1).split(','):
+                        nm = part.split(':')[0].strip()
+                        nm = re.sub(r'^(mut|&)\s*', '', nm)
+                        if not re.match(r'^[A-Za-z_][A-Za-z0-9_]*$', nm):
+                            return None
+                        out.append(nm)
+                    return out
+                old_n, new_n = names(base_cl[arg]), names(cur_header)
+                if old_n and new_n and len(old_n) == len(new_n) and old_n != new_n:
+                    for o_, n_ in zip(old_n, new_n):
+                        if o_ != n_:
+                            body = re.sub(r'(?<![A-Za-z0-9_])%s(?![A-Za-z0-9_])' % re.escape(o_), n_, body)
+                    REANCHORED.append("ADAPTED %s: closure %d: parameters renamed %s -> %s, the woven contract follows" % (what, arg, old_n, new_n))
             text = text[:i] + body + text[j + len(e):]
         elif kind == 'type':
             mk = '/*@TY:%s@*/' % arg
             if mk not in text:
-                raise Undecided("lost anchor: %s: no collected temporary %s" % (what, arg))
+                # the `let` is gone or carries its own type annotation now: the woven annotation is moot
+                REANCHORED.append("ADAPTED %s: no un-annotated `let %s` any more, the woven type annotation is moot" % (what, arg))
+                continue
             text = text.replace(mk, ' ' + body.strip() + ' ', 1)
         elif kind == 'after':
             prefix, nth = arg
